@@ -31,7 +31,10 @@ VDoc == << [k |-> "root", p |-> 0, sp |-> <<>>, lo |-> <<>>, v |-> <<>>],
            El(2, <<"n">>), Tx(14, <<"-", "2">>),             \* 14 15 n = "-2"
            El(2, <<"t">>), Tx(16, <<"t", "r", "u", "e">>),   \* 16 17 t = "true"
            El(2, <<"z">>), Tx(18, <<"0">>),                  \* 18 19 z = "0"
-           El(2, <<"m">>), Tx(20, <<"1">>), El(20, <<"k">>), Tx(22, <<"2">>) >>   \* 20..23 m = "12" (nested text)
+           El(2, <<"m">>), Tx(20, <<"1">>), El(20, <<"k">>), Tx(22, <<"2">>),     \* 20..23 m = "12" (nested text)
+           El(2, <<"x">>), Tx(24, <<"1", "e", "2">>), El(2, <<"x">>), Tx(26, <<"+", "5">>),   \* 24..27 x = "1e2", "+5": not XPath numerals
+           El(2, <<"y">>), Tx(28, <<"nbsp", "7">>), El(2, <<"y">>), Tx(30, <<"3">>),          \* 28..31 y = NBSP "7" (not XML white space), "3"
+           El(2, <<"w">>), Tx(32, <<"I","n","f","i","n","i","t","y">>), El(2, <<"w">>), Tx(34, <<"nl", "4", "tab">>) >>  \* 32..35 w = "Infinity", "\n4\t"
 ASSUME WellFormed(VDoc)
 Named(nm) == Abs(<<DoS, Step("child", T_name("", nm))>>)
 
@@ -78,7 +81,8 @@ NsOp(ids, e) == [val |-> NSVal(ids), e |-> e]
 NsOps == << NsOp(<<>>, Named(<<"q">>)), NsOp(<<3, 5>>, Named(<<"a">>)), NsOp(<<7>>, Named(<<"b">>)), NsOp(<<9>>, Named(<<"c">>)),
             NsOp(<<11>>, Named(<<"e">>)), NsOp(<<12, 14>>, Named(<<"n">>)), NsOp(<<16>>, Named(<<"t">>)), NsOp(<<18>>, Named(<<"z">>)),
             NsOp(<<3, 5, 9>>, Bin("union", Named(<<"a">>), Named(<<"c">>))), NsOp(<<20>>, Named(<<"m">>)),
-            NsOp(<<5, 3>>, NoE) >>   \* a node-set handed over in reverse document order
+            NsOp(<<5, 3>>, NoE),     \* a node-set handed over in reverse document order
+            NsOp(<<24, 26>>, Named(<<"x">>)), NsOp(<<28, 30>>, Named(<<"y">>)), NsOp(<<32, 34>>, Named(<<"w">>)) >>
 CmpNums == SubSeq(NumOps, 1, 13) \o <<NumOp(R(3, 2)), NumOp(R(1, 2))>>
 AllOps == NsOps \o CmpNums \o StrOps \o BoolOps
 
